@@ -20,7 +20,10 @@ EXTENDS Dispatch
 
 CONSTANTS MaxBlocks, MaxMatch, MaxIgnore,   \* blocks per configuration, sub-blocks per block
           MaxMatchConds, MaxIgnoreConds,    \* conditions per sub-block
-          WithAlt                           \* BOOLEAN: include regexps with a top-level alternation (a|b)
+          WithAlt,                          \* BOOLEAN: include regexps with a top-level alternation (a|b)
+          Reduced                           \* BOOLEAN: the reduced condition alphabet (4 atoms, one per kind) and canonical
+                                            \*   (unordered, duplicate-free) sub-block lists: makes 2+2 sub-blocks and several
+                                            \*   blocks exhaustively enumerable
 
 -----------------------------------------------------------------------------
 (* The rule corpus (rendered to YAML files by the harness).                 *)
@@ -77,11 +80,16 @@ StateLists == { <<"any">>, <<"added">>, <<"modified", "renamed">>, <<"unmodified
 \* condition kinds in a fixed order (sub-blocks are built in this order: no permutations of the same set)
 KindOrder == <<"path", "name", "kind", "label", "annotation", "for", "kff", "command", "state">>
 KindIdx(k) == CHOOSE i \in DOMAIN KindOrder : KindOrder[i] = k
-Atoms == {[k |-> "path", v |-> r] : r \in PathRes} \cup {[k |-> "name", v |-> r] : r \in NameRes}
+\* reduced alphabet: conditions that interact on the corpus (a name prefix, the kind, a label that 1/5 of the rules only get
+\* from their group, a state)
+ReducedAtoms == { [k |-> "name", v |-> Re("pre", "foo", "")], [k |-> "kind", v |-> "alerting"],
+                  [k |-> "label", v |-> KV(Lit("severity"), Lit("page"))], [k |-> "state", v |-> <<"added", "unmodified">>] }
+FullAtoms == {[k |-> "path", v |-> r] : r \in PathRes} \cup {[k |-> "name", v |-> r] : r \in NameRes}
          \cup {[k |-> "kind", v |-> x] : x \in {"alerting", "recording"}}
          \cup {[k |-> "label", v |-> c] : c \in LabelConds} \cup {[k |-> "annotation", v |-> c] : c \in AnnConds}
          \cup {[k |-> "for", v |-> c] : c \in ForConds} \cup {[k |-> "kff", v |-> c] : c \in KffConds}
          \cup {[k |-> "command", v |-> c] : c \in Range(Cmds)} \cup {[k |-> "state", v |-> s] : s \in StateLists}
+Atoms == IF Reduced THEN ReducedAtoms ELSE FullAtoms
 
 SetCond(m, at) ==
   CASE at.k = "path"       -> [m EXCEPT !.path = at.v]
@@ -148,8 +156,9 @@ VARIABLES blocks,   \* finished blocks
           phase     \* "build" | "done"
 vars == <<blocks, cur, sub, phase>>
 
-NoSub  == [kind |-> "none", m |-> EmptyMatch, last |-> 0, n |-> 0, want |-> 0]
-NewCur == [match |-> <<>>, ignore |-> <<>>]
+NoSub  == [kind |-> "none", m |-> EmptyMatch, last |-> 0, n |-> 0, want |-> 0, first |-> 0]
+\* lastM / lastI: kind index of the first condition of the previous match / ignore sub-block (canonical order)
+NewCur == [match |-> <<>>, ignore |-> <<>>, lastM |-> -1, lastI |-> -1]
 MarkerName(b) == IF b = 1 THEN "report" ELSE IF b = 2 THEN "mk2" ELSE IF b = 3 THEN "mk3" ELSE "mk4"
 MkBlock(c, b) == [kinds |-> <<>>, enable |-> <<>>, disable |-> <<>>, locked |-> FALSE, match |-> c.match, ignore |-> c.ignore,
                   marker |-> MarkerName(b)]
@@ -171,7 +180,10 @@ AddCond(at) ==
   /\ KindIdx(at.k) > sub.last
   /\ Len(KindOrder) - KindIdx(at.k) >= sub.want - sub.n - 1      \* enough kinds left to reach the chosen size
   /\ ~(sub.kind = "ignore" /\ sub.want = 1 /\ at.k = "kff")     \* see EndSub
-  /\ sub' = [sub EXCEPT !.m = SetCond(sub.m, at), !.last = KindIdx(at.k), !.n = sub.n + 1]
+  \* canonical lists: the first conditions of the sub-blocks of one kind are strictly increasing
+  /\ (Reduced /\ sub.n = 0 => KindIdx(at.k) > (IF sub.kind = "match" THEN cur.lastM ELSE cur.lastI))
+  /\ sub' = [sub EXCEPT !.m = SetCond(sub.m, at), !.last = KindIdx(at.k), !.n = sub.n + 1,
+                         !.first = IF sub.n = 0 THEN KindIdx(at.k) ELSE @]
   /\ UNCHANGED <<blocks, cur, phase>>
 
 \* config validation: an ignore sub-block needs a condition, and keep_firing_for alone is not counted as one
@@ -179,8 +191,9 @@ AddCond(at) ==
 EndSub ==
   /\ phase = "build" /\ sub.kind # "none" /\ sub.n = sub.want
   /\ (sub.kind = "ignore" => ~(sub.n = 1 /\ sub.m.kff.op # "none"))
-  /\ cur' = IF sub.kind = "match" THEN [cur EXCEPT !.match = Append(cur.match, sub.m)]
-                                  ELSE [cur EXCEPT !.ignore = Append(cur.ignore, sub.m)]
+  /\ (Reduced /\ sub.want = 0 => cur.lastM = -1)        \* an empty match sub-block only as the first one
+  /\ cur' = IF sub.kind = "match" THEN [cur EXCEPT !.match = Append(cur.match, sub.m), !.lastM = sub.first]
+                                  ELSE [cur EXCEPT !.ignore = Append(cur.ignore, sub.m), !.lastI = sub.first]
   /\ sub' = NoSub
   /\ UNCHANGED <<blocks, phase>>
 
